@@ -75,56 +75,56 @@ type Run struct {
 	encNeedles map[string]string
 	encKeys    []string
 	encNKeyIDs int
-	encIVs    map[string]uint64 // C23: (data key id, IV) pairs seen so far
-	encKeyIDs map[uint64]bool
+	encIVs     map[string]uint64 // C23: (data key id, IV) pairs seen so far
+	encKeyIDs  map[uint64]bool
 	// swFlushing: StreamWriter.Flush is running. Flush calls readTs() on the oracle it has
 	// just stopped (a Begin nobody will ever process or match); those marks are not the new
 	// oracle's and are ignored by the watermark invariant.
 	swFlushing bool
-	swst *swState // StreamWriter scenario state (C26)
-	c        *Case
-	prof     *Profile
-	e        *Engine
-	db       *badger.DB
-	dir      string
-	vdir     string
-	model    *Model
-	mu       sync.Mutex
-	viol     *Violation
-	abort    bool
-	cls      []*clientState
-	byGid    map[int64]*clientState
-	stats    RunStats
-	hist     []string
-	keepHist bool
+	swst       *swState // StreamWriter scenario state (C26)
+	c          *Case
+	prof       *Profile
+	e          *Engine
+	db         *badger.DB
+	dir        string
+	vdir       string
+	model      *Model
+	mu         sync.Mutex
+	viol       *Violation
+	abort      bool
+	cls        []*clientState
+	byGid      map[int64]*clientState
+	stats      RunStats
+	hist       []string
+	keepHist   bool
 
-	lastAllocTs   uint64
-	maxAckedTs    uint64
-	inFlight      map[uint64]bool // commit ts allocated, not yet done
-	heightRng     *rand.Rand
-	startTime     time.Time
-	extra         func(r *Run) // scenario-specific end-of-run checks (inside the bubble, DB open)
-	harness       string
-	pmu           sync.Mutex
-	disk          *DiskTracker
-	phase         string
-	wms           map[string]*wmState
-	curRec        map[int64]*CommitRec // commit whose entries are currently being reported, per goroutine
-	subByGid      map[int64]*extraState
-	subSeq        int
-	seqSeen       map[string]map[uint64]string
-	maxAppliedTs  uint64
-	discardTs     uint64 // managed mode: highest value passed to SetDiscardTs
-	usedTs        map[uint64]bool
-	pendingVerify []string
-	gcMoved       map[string]map[uint64]bool // versions written back by a value-log GC rewrite
+	lastAllocTs    uint64
+	maxAckedTs     uint64
+	inFlight       map[uint64]bool // commit ts allocated, not yet done
+	heightRng      *rand.Rand
+	startTime      time.Time
+	extra          func(r *Run) // scenario-specific end-of-run checks (inside the bubble, DB open)
+	harness        string
+	pmu            sync.Mutex
+	disk           *DiskTracker
+	phase          string
+	wms            map[string]*wmState
+	curRec         map[int64]*CommitRec // commit whose entries are currently being reported, per goroutine
+	subByGid       map[int64]*extraState
+	subSeq         int
+	seqSeen        map[string]map[uint64]string
+	maxAppliedTs   uint64
+	discardTs      uint64 // managed mode: highest value passed to SetDiscardTs
+	usedTs         map[uint64]bool
+	pendingVerify  []string
+	gcMoved        map[string]map[uint64]bool // versions written back by a value-log GC rewrite
 	droppedMarkers map[string][]uint64        // delete/expired markers discarded by compactions
-	vlogEntries   map[uint32][]badger.VerifLogEntry
-	backups       []*backupRec
-	drops         []*dropRec
-	dropsActive   int
-	maxDiscardTs  uint64 // highest discard watermark any compaction used so far
-	compactions   int
+	vlogEntries    map[uint32][]badger.VerifLogEntry
+	backups        []*backupRec
+	drops          []*dropRec
+	dropsActive    int
+	maxDiscardTs   uint64 // highest discard watermark any compaction used so far
+	compactions    int
 }
 
 func dumpAllStacks() {
